@@ -123,7 +123,7 @@ func openEngine(f *vevid.Flags) tsdb.Engine {
 	config.SetGlobalStorageConfig(cfg)
 	e, err := tsdb.NewEngine()
 	if err != nil {
-		vevid.Fatal("new engine: %v", err)
+		vevid.OpFailed("new engine: %v", err)
 	}
 	return e
 }
@@ -151,15 +151,15 @@ func (st *engState) prepare(kind int, pattern string, thorough bool) *prepared {
 		ivs = option.Intervals{{Interval: timeutil.Interval(engIntervals[kind]), Retention: retention}}
 	}
 	if err := st.engine.CreateShards(db, &option.DatabaseOption{Intervals: ivs, AutoCreateNS: true}, models.ShardID(1)); err != nil {
-		vevid.Fatal("create shards: %v", err)
+		vevid.OpFailed("create shards: %v", err)
 	}
 	d, ok := st.engine.GetDatabase(db)
 	if !ok {
-		vevid.Fatal("database %s missing", db)
+		vevid.OpFailed("database %s missing", db)
 	}
 	shard, ok := d.GetShard(models.ShardID(1))
 	if !ok {
-		vevid.Fatal("shard missing")
+		vevid.OpFailed("shard missing")
 	}
 	p := &prepared{kind: kind, pattern: pattern, shard: shard, existing: ex, uni: uni}
 	scen := fmt.Sprintf("kind=%s pattern=%s", kindName[kind], pattern)
@@ -171,15 +171,15 @@ func (st *engState) prepare(kind int, pattern string, thorough bool) *prepared {
 		calc := tgt.Calculator()
 		for _, fm := range ex {
 			if _, err := shard.GetOrCrateDataFamily(fm.fs); err != nil {
-				vevid.Fatal("create source family: %v", err)
+				vevid.OpFailed("create source family: %v", err)
 			}
 			store, ok := kv.GetStoreManager().GetStoreByName(tsdb.ShardSegmentPath(db, models.ShardID(1), tgt, calc.GetSegment(fm.fs)))
 			if !ok {
-				vevid.Fatal("rollup target store of %s not created", fmtTS(fm.fs))
+				vevid.OpFailed("rollup target store of %s not created", fmtTS(fm.fs))
 			}
 			seg := calc.CalcSegmentTime(fm.fs)
 			if _, err := store.CreateFamily(strconv.Itoa(calc.CalcFamily(fm.fs, seg)), kv.FamilyOption{Merger: string(metricsdata.MetricDataMerger)}); err != nil {
-				vevid.Fatal("create rollup target family: %v", err)
+				vevid.OpFailed("create rollup target family: %v", err)
 			}
 		}
 		return p
